@@ -190,6 +190,11 @@ class ProgGen:
                 b = self.gen_int(ctx, depth - 1)
             return '(%s %s %s)' % (a, op, b)
         if k < 40:
+            if r.chance(1, 4):      # an else-if chain (three or more branches)
+                self.features.add('else-if-chain')
+                n = r.range(1, 2)
+                mid = ''.join(' else if %s { %s }' % (self.gen_bool(ctx, depth - 2), self.gen_int(ctx, depth - 2)) for _ in range(n))
+                return '(if %s { %s }%s else { %s })' % (self.gen_bool(ctx, depth - 1), self.gen_int(ctx, depth - 1), mid, self.gen_int(ctx, depth - 1))
             return '(if %s { %s } else { %s })' % (self.gen_bool(ctx, depth - 1), self.gen_int(ctx, depth - 1), self.gen_int(ctx, depth - 1))
         if k < 50 and self.funs:
             cands = [f for f in self.funs if f[2] == INT]
